@@ -121,6 +121,14 @@ def finalize(plan):
             s['must_skip'] = bool(sure and (w0['nsub'] >= 1 or w0['compressed']))
         elif k == 'data':
             s['must_skip'] = False
+        elif k == 'trunc':
+            # the producer crashed: the stream ends inside this message (end of input). Only as the very
+            # last thing of the stream, with the complete start signature and at least one more octet
+            # delivered (a shorter remainder is a separator made of a partial signature - C11's business)
+            if s is not segs[-1] or tail or not (5 <= f['cut'] < len(s['orig'])):
+                lay['ok'], lay['why'] = False, 'end-of-input fault must be the last thing of the stream'
+                return lay
+            s['must_skip'] = True
         else:
             lay['ok'], lay['why'] = False, 'fault kind %s not allowed in a stream' % k
             return lay
@@ -264,7 +272,9 @@ def gen_plan(family, seed, pool, tier='quick'):
         if plan is None:
             continue
         plan.update({'engine': 'streamsim', 'family': family, 'seed': seed})
-        if family in ('c11', 'c12', 'c17-stream'):
+        if family == 'c12-eof':
+            plan.update({'family': 'c12', 'sub': 'eof'})
+        if plan['family'] in ('c11', 'c12', 'c17-stream'):
             lay = finalize(plan)
             if not lay['ok']:
                 continue
@@ -300,12 +310,17 @@ def _gen_plan(family, rng, pool, tier):
                  'filter': flt}
         return {'knobs': knobs, 'items': items, 'seps': seps}
 
-    if family == 'c12':
+    if family in ('c12', 'c12-eof'):
+        eof = family == 'c12-eof'
         n = rng.choice([2, 2, 3, 3, 4, 5, 6, 8])
         # damaged messages must not contain an embedded start signature
         chosen = _pick(rng, pool, n, small)
         kinds_on = rng.sample(['stopsig', 'undef_el', 'undef_seq', 'len-', 'len+'], rng.randint(1, 5))
         p_dmg = rng.choice([0.2, 0.35, 0.5, 0.5, 0.7, 1.0])
+        if eof:
+            # the producer crashes while writing the last message: end of input at a seeded octet of it;
+            # the messages before it are intact in most streams, damaged as usual in the others
+            p_dmg = rng.choice([0.0, 0.0, 0.0, 0.2, 0.5])
         items = []
         for e in chosen:
             fault = None
@@ -317,9 +332,23 @@ def _gen_plan(family, rng, pool, tier):
                     if d.find(b'BUFR', 1) >= 0 or d == raw:
                         fault = None
             items.append(_item(e, fault))
+        if eof:
+            raw = bytes.fromhex(items[-1]['hex'])
+            if raw.find(b'BUFR', 1) >= 0:
+                return None
+            w = bufrgen.walk(raw)
+            edges = [5, 7, 8, len(raw) - 1, len(raw) - 2, len(raw) - 4, len(raw) - 5]
+            for _k, (o, l) in w['sections'].items():
+                edges += [o - 1, o, o + 1, o + 3, o + 4, o + l - 1]
+            cut = rng.choice(edges) if rng.random() < 0.4 else rng.randrange(5, len(raw))
+            if not (5 <= cut < len(raw)):
+                return None
+            items[-1]['fault'] = {'kind': 'trunc', 'cut': cut}
         if not any(it['fault'] for it in items):
             return None
         seps = [gen_separator(rng)[1].hex() for _ in range(len(items) + 1)]
+        if eof:
+            seps[-1] = ''
         front = rng.choice(['api', 'api', 'api', 'api', 'cli-decode', 'cli-info-m', 'cli-info-c', 'cli-split'])
         mode = 'info' if front in ('cli-info-m', 'cli-info-c', 'cli-split') else \
             ('full' if front == 'cli-decode' else rng.choice(['full', 'full', 'info']))
@@ -774,6 +803,8 @@ def _fk(f):
         return 'len%s%d' % ('+' if f['delta'] > 0 else '-', f['section'])
     if f['kind'] == 'undef':
         return f.get('sub', 'undef')
+    if f['kind'] == 'trunc':
+        return 'eof'
     return f['kind']
 
 
@@ -812,8 +843,10 @@ def oracle_stream(plan, tr, prop):
 
     # ---- expected slots
     slots = []
+    declared = []      # what a front end that only prints lengths shows: the declared total length
     for s in segs:
         dg = (_h(s['bytes']), len(s['bytes']))
+        declared.append(len(s['orig']))
         if not s['damaged']:
             slots.append((dg, 'req' if keep(s) else 'no'))
         elif fam == 'c17-stream':
@@ -850,7 +883,7 @@ def oracle_stream(plan, tr, prop):
         if front.startswith('cli') and not has_dmg and tr['cli']['stderr'].strip():
             out.append(dict(base, clause=clause_lost + '-cli-stderr'))
             return out
-        out.extend(_check_deliveries(plan, tr, slots, deliv, base, clause_lost, exact_end=True))
+        out.extend(_check_deliveries(plan, tr, slots, deliv, base, clause_lost, declared))
         if fam != 'c12' and not out:
             # content of each delivered message equals its lone decode (full mode, api)
             # (an interpreting decoder only: what compilation changes is C08's business, not C11's)
@@ -879,7 +912,7 @@ def oracle_stream(plan, tr, prop):
     dl = deliv
     if dl is None:
         dl = _cli_lengths(plan, tr)
-        slots_cmp = [(s[0][1], s[1]) for s in slots]
+        slots_cmp = [(n, s[1]) for s, n in zip(slots, declared)]
     else:
         slots_cmp = slots
     if front == 'cli-info-c':
@@ -895,10 +928,13 @@ def oracle_stream(plan, tr, prop):
                     ok = (exc is None) and (not front.startswith('cli') or True)
                 else:
                     failed_here = slots[j][1] != 'req'   # only a damaged message may fail
+                    # end of input inside the last message: the property does not say that this must be
+                    # reported, only that the partial message is not delivered and nothing foreign escapes
+                    eof_here = (segs[j].get('fault') or {}).get('kind') == 'trunc'
                     if front.startswith('cli'):
-                        ok = failed_here and ('Error' in tr['cli']['stderr'])
+                        ok = failed_here and (eof_here or 'Error' in tr['cli']['stderr'])
                     else:
-                        ok = failed_here and exc is not None and exc['lib']
+                        ok = failed_here and ((exc is not None and exc['lib']) or (eof_here and exc is None))
                 if ok:
                     break
     if not ok:
@@ -925,13 +961,13 @@ def _count_consistent(tr, slots, stopped):
     return lo <= n <= hi
 
 
-def _check_deliveries(plan, tr, slots, deliv, base, clause, exact_end):
+def _check_deliveries(plan, tr, slots, deliv, base, clause, declared):
     front = plan['knobs']['front']
     if front == 'cli-info-c':
         return [] if _count_consistent(tr, slots, stopped=False) else [dict(base, clause=clause + '-count')]
     if deliv is None:
         dl = _cli_lengths(plan, tr)
-        if not _match(list(dl), [(s[0][1], s[1]) for s in slots]):
+        if not _match(list(dl), [(n, s[1]) for s, n in zip(slots, declared)]):
             return [dict(base, clause=clause)]
         return []
     if not _match(list(deliv), slots):
@@ -1139,7 +1175,8 @@ def shape(plan, tr=None):
             return 'n'
         per = tuple((it['cls'], _fk(it['fault']) if it.get('fault') else '', sc(s))
                     for it, s in zip(plan['items'], seps))
-        return (fam, per, kn.get('mode'), kn.get('coe'), kn.get('front'), kn.get('compiled'),
+        return (fam + '-' + plan['sub'] if plan.get('sub') else fam, per, kn.get('mode'), kn.get('coe'),
+                kn.get('front'), kn.get('compiled'),
                 (kn.get('filter') or {}).get('idx'), (kn.get('warm') or {}).get('how'))
     if fam == 'c12-enum':
         return (fam, plan['items'][0]['ref'], plan['items'][1]['cls'], kn.get('mode'), kn.get('coe'), kn.get('order'))
